@@ -15,13 +15,15 @@ import "time"
 //   (ii) offered before, upper bound of its age < interval, fewer than
 //        `capacity` distinct other items offered since => IsDuplicate == true
 const vSteps = 5
+
+const vMaxInterval = 3600 * time.Second
 const vAlpha = 4
 
 func vCacheBMC(withTags bool) {
 	capacity := vNondetInt("capacity")
 	vAssume(capacity >= 1 && capacity <= 3)
 	interval := time.Duration(vNondetI64("interval"))
-	vAssume(interval >= 1 && interval <= 3600*time.Second)
+	vAssume(interval >= 1 && interval <= vMaxInterval)
 	c := NewCache(capacity, interval)
 	var seen [vAlpha]bool
 	var recorded [vAlpha]time.Time
@@ -38,9 +40,9 @@ func vCacheBMC(withTags bool) {
 				tag = "b"
 			}
 		}
-		before := time.Now()
+		before := vNow()
 		dup := c.IsDuplicate([]byte{item}, tag)
-		after := time.Now()
+		after := vNow()
 		for e := 0; e < vAlpha; e++ {
 			if int(item) != e {
 				continue
@@ -85,3 +87,8 @@ func vH_C06_cache_disabled() {
 	c := NewCache(0, time.Second)
 	vAssert(!c.IsDuplicate([]byte{1}, EmptyTag) && !c.IsDuplicate([]byte{1}, EmptyTag), "capacity 0 disables the cache")
 }
+
+// Signatures are the items themselves (FNV-1a of a 1-byte item is an injective
+// function of the byte; reasoning about the 64-bit multiplication by the FNV
+// prime is what made the unstubbed harness undecidable in 120 s).
+func vStubSignature(c *ReplayCache, data []byte) uint64 { return uint64(data[0]) }
